@@ -5,6 +5,7 @@
 import GoHeader.Oracle.Common
 import GoHeader.Sync.Ranges
 import GoHeader.Sync.Subjective
+import GoHeader.Sync.SyncStore
 namespace GoHeader.Oracle
 open GoHeader GoHeader.Ranges
 
@@ -121,7 +122,10 @@ def evalColdStart (ins outs : List String) : Verdict :=
     | some vb, some vc =>
       if vc < vb then .prop "c19_monotone" s!"Head() returned {vb}, and to a later caller {vc} (the paused first caller got {ha})" else
       if vb != st + 1 then .prop "c19_subjective_head_is_newest" s!"hb={hb} after header {st + 1} was stored" else
-      if ha == "hang" || ha == "err" then .prop "c19_head_result" s!"the paused caller got {ha}" else .ok "coldstart"
+      if ha == "hang" || ha == "err" then .prop "c19_head_result" s!"the paused caller got {ha}" else
+      -- the same schedule on the model of the cached head (theorems c19_cached_head_*)
+      let m := SyncStore.run true st 2 [.head 0, .append, .head 1, .head 0, .head 1]
+      if m.results.map toString != [hb, ha, hc] then .corr "coldstart results (B, A, C)" (toString m.results) s!"{hb},{ha},{hc}" else .ok "coldstart"
     | _, _ => .prop "c19_head_result" s!"hb={hb} hc={hc}"
   | _, _, _, _, _, _ => .bad "coldstart fields"
 
